@@ -45,8 +45,15 @@ template <typename InputIt1, typename InputIt2, typename Predicate>
         if (etl::distance(first1, last1) != etl::distance(first2, last2)) {
             return false;
         }
+        return etl::equal(first1, last1, first2, p);
+    } else {
+        for (; first1 != last1 and first2 != last2; ++first1, (void)++first2) {
+            if (not p(*first1, *first2)) {
+                return false;
+            }
+        }
+        return first1 == last1 and first2 == last2;
     }
-    return etl::equal(first1, last1, first2, p);
 }
 
 /// \ingroup algorithm
